@@ -256,7 +256,7 @@ class CHECK(Check):
                 vals.append(''.join(tup))
         vals += ['run `ls -l` first', 'a\u00a0b', '{x}', '${x}', '?', '??', 'a\tb', '\u2028', '[x]', '#x', '@x', '@@x', 'NULL', 'true', '\x00', 'a\rb']
         vals += ["\\' OR 1=1 -- ", "'; drop table t; --", 'it\'s', '%s', ':x', '%(x)s', '\\\\', "a\\'b", 'x' * 300]
-        others = [0, 1, -5, 10 ** 20, 1.5, -0.25, 1e-7, True, False, None, dt.date(2020, 1, 2), dt.datetime(2020, 1, 2, 3, 4, 5)]
+        others = [0, 1, -5, 10 ** 20, 1.5, -0.25, 1e-7, 1e-05, -2.5e-07, 1e+22, 1 / 81000, 123456789.125, True, False, None, dt.date(2020, 1, 2), dt.datetime(2020, 1, 2, 3, 4, 5)]
         out = []
         for v in vals:
             for pos in POSITIONS:
